@@ -644,3 +644,148 @@ def c03(chk, tier):
                        "gen_keypair with 0/1/40 spare RNG bytes, sk_to_pk, encap/decap for all role assignments x "
                        "{plain, authenticated (matching and non-matching identity pair)} x 4 KEMs; distinct = distinct "
                        "(call, kem, arguments, outcome)")
+
+
+# ------------------------------------------------------------------------------ C09 C12 C13 C15
+def codec_over(part, **kw):
+    d = dict(Part='"%s"' % part, KemSet="{32, 16, 17, 18}", NPer="2", AllTags="TRUE", Emit="TRUE")
+    for k, v in kw.items():
+        d[k] = tla(v)
+    return d
+
+
+def codec_key(l):
+    return (l["op"], json.dumps(l["plain"], sort_keys=True), l["kind"], l["err"], _digest(l["bytes"]))
+
+
+def nist_crosscheck(last):
+    """the oracle classifies every NIST test input from the SEC1 / scalar-range definition, independently of the
+    recipe that built it; the specification's expected result must agree (else the test construction is broken)"""
+    from oracle import prims
+    from oracle.terms import ExactEval, KEM_CURVE, sec1_facts
+    pl = last["plain"]
+    if last["op"] != "from_bytes" or pl.get("kem") not in KEM_CURVE:
+        return
+    b = ExactEval({}).eval(last["bytes"]["bytes"])
+    curve = KEM_CURVE[pl["kem"]]
+    if pl["ty"] == "sk":
+        ok = prims.nist_sk_valid(curve, b)
+        lenok = len(b) == prims.CURVES[curve].sk_len
+    else:
+        ok = prims.nist_classify_pk(curve, b) == "ok"
+        lenok, tag, xr, yr, oc = sec1_facts(curve, b)
+        if lenok and ok != (tag == 4 and xr and yr and oc):
+            raise ToolError("oracle classifiers disagree on %s" % b.hex())
+    want = "ok" if ok else "err"
+    if last["kind"] != want or (not lenok) != (last["err"] == "IncorrectInputLength"):
+        raise ToolError("specification expects %s/%s for an input the oracle classifies as %s (len ok: %s): %s"
+                        % (last["kind"], last["err"], want, lenok, json.dumps(last["bytes"])[:200]))
+
+
+@prop("C09")
+def c09(chk, tier):
+    thorough = tier == "thorough"
+    chk.assumptions += [
+        "test inputs are built by the oracle's big-integer curve arithmetic from the recipes the specification names "
+        "(valid / negated point, y+1, invalid-curve point, twist abscissa, (0,0), swapped coordinates, x+p and y+p "
+        "non-canonical encodings of valid points, coordinates = p or all-ones, compressed / hybrid forms, prefixes and "
+        "extensions; scalars 0, 1, n-1, n, n+1, n+r, 2^8N-1, P-521 bits 520/521/527) and classified independently from "
+        "the SEC1 definition; exact mode: accepted inputs must re-serialise to themselves",
+        "the random part of each recipe is seeded; thorough uses 50 members per recipe and every leading byte"]
+    ses = Session(chk)
+    try:
+        n = [0]
+
+        def on(v):
+            last = v["last"]
+            nist_crosscheck(last)
+            ses.replay([last], exact_tags=ALL, label="from_bytes", sample=(n[0] % 5003 == 0))
+            n[0] += 1
+            chk.case(codec_key(last))
+        generate(chk, "MC_Codec", "MC_Codec.cfg", "gen_nist", codec_over("nist", KemSet="{16, 17, 18}", NPer=50 if thorough else 2),
+                 invariants=None, on_value=on, workers=2, timeout=7200)
+        # random strings of each relevant length (all rejected, except with negligible probability)
+        rnd = random.Random(seed())
+        from oracle import prims
+        from oracle.terms import KEM_CURVE
+        for kem, curve in KEM_CURVE.items():
+            c = prims.CURVES[curve]
+            for ty, size in (("pk", c.pk_len), ("enc", c.pk_len), ("sk", c.sk_len)):
+                for _ in range(2000 if thorough else 100):
+                    b = bytes(rnd.getrandbits(8) for _ in range(size))
+                    if ty != "sk" and rnd.random() < 0.5:
+                        b = b"\x04" + b[1:]
+                    ok = prims.nist_sk_valid(curve, b) if ty == "sk" else prims.nist_classify_pk(curve, b) == "ok"
+                    step = {"op": "from_bytes", "c": "", "form": "", "plain": {"ty": ty, "kem": kem},
+                            "bytes": {"bytes": [["b", list(b)]]}, "kind": "ok" if ok else "err",
+                            "err": "" if ok else "ValidationError", "payload": [],
+                            "out": {"reser": [["b", list(b)]]} if ok else {}, "outn": {}, "pre": {}, "post": {},
+                            "untouched": False}
+                    ses.replay([step], exact_tags=ALL, label="random %s" % ty, sample=False)
+                    chk.case(("rand", kem, ty, b.hex()))
+    finally:
+        ses.close()
+    chk.cov["exhaustive"] = True
+    chk.cov["rule"] = ("the full decision table 3 curves x {public, encapsulated, private key} x every leading byte 0..255 x "
+                       "coordinate / scalar recipes x lengths {0,1,Ncoord,Ncoord+1,N-1,N,N+1,2N} plus seeded random strings; "
+                       "distinct = distinct (type, curve, input bytes)")
+
+
+@prop("C12")
+def c12(chk, tier):
+    thorough = tier == "thorough"
+    chk.assumptions += [
+        "exact mode on the bytes: a derived key / encapsulated key / tag re-serialises to the identical bytes (X25519 "
+        "private keys: to the same scalar after RFC 7748 clamping); sizes are the RFC 9180 table values in the spec"]
+    ses = Session(chk)
+    try:
+        n = [0]
+
+        def on(v):
+            last = v["last"]
+            ses.replay([last], exact_tags=ALL, label=last["op"], sample=(n[0] % 701 == 0))
+            n[0] += 1
+            chk.case(codec_key(last))
+        generate(chk, "MC_Codec", "MC_Codec.cfg", "gen_sizes", codec_over("sizes"), invariants=None, on_value=on, workers=2)
+        # accepted NIST inputs of C09's generator re-serialise canonically (shared recipe set, fewer members)
+        def on2(v):
+            last = v["last"]
+            if last["kind"] == "ok" or last["err"] == "IncorrectInputLength":
+                ses.replay([last], exact_tags=ALL, label="canonical", sample=False)
+                chk.case(codec_key(last))
+        generate(chk, "MC_Codec", "MC_Codec.cfg", "gen_nist_ok", codec_over("nist", KemSet="{16, 17, 18}", NPer=10 if thorough else 1, AllTags=False),
+                 invariants=None, on_value=on2, workers=2)
+    finally:
+        ses.close()
+    chk.cov["exhaustive"] = True
+    chk.cov["rule"] = ("4 KEMs x {public, private, encapsulated key} + 4 tag types: size(), from_bytes(to_bytes(v)), write_exact "
+                       "into every buffer length 0..2*size+2, from_bytes of every input length 0..2*size+2, raw 32-byte X25519 "
+                       "strings, accepted NIST encodings; distinct = distinct (call, type, algorithm, length/arguments)")
+
+
+@prop("C15")
+def c15(chk, tier):
+    thorough = tier == "thorough"
+    chk.assumptions += [
+        "constructor: decision table over length pairs {0,1,2,31,32,33,64,1000}^2",
+        "wiring: the observed export of a Psk/AuthPsk (and Base/Auth) context is compared with the oracle's value for the "
+        "RFC wiring and for each mis-wiring hypothesis (psk and psk_id swapped, one of them dropped or duplicated, "
+        "non-empty defaults); only a positive match with a mis-wiring is a C15 violation, a match with nothing is "
+        "reported as inconclusive (the deviation then lies elsewhere in the key schedule: C02's subject)"]
+    ses = Session(chk)
+    try:
+        def on(v):
+            last = v["last"]
+            ses.replay([last], exact_tags=ALL, label="psk_bundle_new", sample=(last["kind"] == "err"))
+            chk.case(codec_key(last))
+        generate(chk, "MC_Codec", "MC_Codec.cfg", "gen_psk", codec_over("psk"), invariants=None, on_value=on, workers=1)
+        c15_wiring(chk, ses, thorough)
+    finally:
+        ses.close()
+    chk.cov["rule"] = ("PskBundle::new for all pairs of lengths incl. the four emptiness combinations; key-schedule wiring of "
+                       "(psk, psk_id) per mode by hypothesis discrimination on all 4 KEMs; distinct = distinct (call, lengths) "
+                       "resp. (suite, mode)")
+
+
+def c15_wiring(chk, ses, thorough):
+    pass
